@@ -221,6 +221,23 @@ _cm_busy = set()
 
 def _known_len(ctx, t):
     """len(v) for a local `let [mut] v = vec![x; n]` that is only ever written element-wise is n."""
+    if t[0] == "len" and t[1][0] == "field" and t[1][1][0] == "var":
+        # len(v.<field>) for a local struct v built by a constructor whose summary gives the field as vec![x; n]
+        b = ctx.binds.get(t[1][1][1])
+        if b is not None and b.kind == "let" and b.init is not None and not b.proj:
+            it = ctx.term(b.init)
+            if it[0] == "call" and all(mode == "elem" for (path_, mode), _ in ctx.mutations.get(t[1][1], [])):
+                try:
+                    from .common import ctor_summary, subst_term
+                    cf = ctx.pdb.fn(it[1])
+                    summ = ctor_summary(ctx.pdb, cf) if cf is not None else None
+                    fv = summ.get(t[1][2]) if summ else None
+                    if fv is not None:
+                        fv = subst_term(fv, {("param", i): a for i, a in enumerate(it[2:])})
+                        if fv[0] == "call" and str(fv[1]).endswith("from_elem") and len(fv) == 4:
+                            return fv[3]
+                except Exception:
+                    pass
     if t[0] == "len" and t[1][0] == "var":
         b = ctx.binds.get(t[1][1])
         if b is not None and b.kind == "let" and b.init is not None and not b.proj:
